@@ -34,7 +34,7 @@ def _filler(n, dtype):
     return f.astype(dtype)
 
 
-HISTORIES = ("none", "refill", "hash_twin", "bytes_twin", "dtype_twin", "repeat", "alias", "debuglog", "dashO", "threads",
+HISTORIES = ("none", "refill", "hash_twin", "bytes_twin", "dtype_twin", "repeat", "scribble", "alias", "debuglog", "dashO", "threads",
              "preempt")
 
 
@@ -59,8 +59,8 @@ def decorate(case, rng, allow_dash_o=True, allow_threads=False):
         return case
     case["layout"] = ",".join(pick_layout(rng) + ("!" if rng.random() < 0.15 else "") for _ in range(3))     # "!": read-only
     r = rng.random()
-    table = [(0.48, "none"), (0.14, "refill"), (0.04, "hash_twin"), (0.04, "bytes_twin"), (0.04, "dtype_twin"),
-             (0.04, "repeat"), (0.05, "alias"), (0.04, "debuglog"), (0.04, "dashO"), (0.05, "threads"), (0.04, "preempt")]
+    table = [(0.44, "none"), (0.14, "refill"), (0.04, "hash_twin"), (0.04, "bytes_twin"), (0.04, "dtype_twin"),
+             (0.04, "repeat"), (0.04, "scribble"), (0.05, "alias"), (0.04, "debuglog"), (0.04, "dashO"), (0.05, "threads"), (0.04, "preempt")]
     h, acc = "none", 0.0
     for p, name in table:
         acc += p
@@ -127,15 +127,92 @@ def run_with_history(run_impl, case):
             begin(case, 0)
             return run_impl(case)
         begin(case, 1)
+        rec = _ResultRecorder() if h == "scribble" else None
         try:
             import copy
+            if rec is not None:
+                rec.install()
             run_impl(copy.deepcopy(case))       # whatever the prelude leaves in its case is dropped
         except Exception:  # noqa: the prelude's outcome is irrelevant
             pass
+        finally:
+            if rec is not None:
+                rec.uninstall()
+                rec.scribble()
         begin(case, 2)
         return run_impl(case)
     finally:
         end()
+
+
+class _ResultRecorder:
+    """history `scribble`: the same call is made twice; every array the library's public functions handed out the first
+    time is edited in place by the application in between (`idx += 1`, `np.clip(..., out=idx)`, `y[k] = nan`: results are
+    the caller's to do with as it likes).  The second call must give what it gives alone - a result served again from a
+    memo without a copy would not."""
+
+    MODULES = ("traffic_weaver.sorted_array_utils", "traffic_weaver.process", "traffic_weaver.match")
+    _lock = threading.Lock()
+
+    def __init__(self):
+        self.saved = []
+        self.results = []
+        self.owner = threading.get_ident()
+
+    def _keep(self, r):
+        if threading.get_ident() != self.owner:
+            return
+        if isinstance(r, np.ndarray):
+            self.results.append(r)
+        elif isinstance(r, (tuple, list)):
+            for t in r:
+                if isinstance(t, np.ndarray):
+                    self.results.append(t)
+
+    def install(self):
+        import importlib
+        import functools
+        import types
+        if not _ResultRecorder._lock.acquire(blocking=False):
+            return          # another thread is recording: this case runs as a plain repeat
+        self.locked = True
+        for name in self.MODULES:
+            try:
+                mod = importlib.import_module(name)
+            except Exception:  # noqa
+                continue
+            for attr, f in list(vars(mod).items()):
+                if isinstance(f, types.FunctionType) and f.__module__ == name and not attr.startswith("__"):
+                    def wrap(f=f):
+                        @functools.wraps(f)
+                        def g(*a, **k):
+                            r = f(*a, **k)
+                            self._keep(r)
+                            return r
+                        return g
+                    self.saved.append((mod, attr, f))
+                    setattr(mod, attr, wrap())
+
+    def uninstall(self):
+        for mod, attr, f in self.saved:
+            setattr(mod, attr, f)
+        self.saved = []
+        if getattr(self, "locked", False):
+            self.locked = False
+            _ResultRecorder._lock.release()
+
+    def scribble(self):
+        for r in self.results:
+            try:
+                if r.flags.writeable and r.size:
+                    if r.dtype.kind in "iu":
+                        r += 1
+                    elif r.dtype.kind == "f":
+                        r[...] = r * -3.0 + 1.5
+                        r[r.size // 2] = np.nan
+            except Exception:  # noqa
+                pass
+        self.results = []
 
 
 def run_decoy(run_impl, case):
@@ -382,3 +459,31 @@ class LabelSeries:
     @property
     def dtype(self):
         return self._v.dtype
+
+
+def interval_container(values, n, hist, integral=False):
+    """The library's own array-like (`traffic_weaver.interval.IntervalArray`) holding `values`, reached through a history:
+    `fresh` - built from the values; `corrected` - built from other values (same length / dtype), looked at once
+    (`to_2d_array()`, `len`, iteration, `numpy.asarray`: everything a conversion cache could hang on), then corrected
+    sample by sample with `ia[k, i] = v` / `ia[j] = v` to the values of the case.  Integer backing when `integral`
+    (a float view of it is then a copy, not the array itself)."""
+    from traffic_weaver.interval import IntervalArray
+    vals = [int(v) for v in values] if integral else [float(v) for v in values]
+    dt = np.int64 if integral else np.float64
+    if hist == "fresh":
+        return IntervalArray(np.array(vals, dtype=dt), n)
+    decoy = list(vals)
+    idx = [j for j in range(len(vals)) if j % 3 != 1] or [0]
+    for j in idx:
+        decoy[j] = decoy[j] + (j % 5) + 1
+    ia = IntervalArray(np.array(decoy, dtype=dt), n)
+    ia.to_2d_array()
+    len(ia)
+    list(iter(ia))
+    np.asarray(ia, dtype=float)
+    for t, j in enumerate(idx):
+        if t % 2:
+            ia[j] = vals[j]
+        else:
+            ia[j // n, j % n] = vals[j]
+    return ia
